@@ -42,6 +42,14 @@ def observe(rec: bytes, oid, how=0):
     return o
 
 
+def _raises(f, x):
+    try:
+        f(x)
+        return False
+    except Exception:
+        return True
+
+
 _CRC_TABLE = []
 for _i in range(256):
     _c = _i
@@ -189,7 +197,13 @@ def run(ctx):
                 r_[0:len(m_)] = m_
             rs.append(bytes(r_))
         blob, _lay = encode_v2([(5, 6, b'p', b'')], rnd.choice([0, 0, 64]), rs)
-        want = [tuple(from_kd_buf(r_)) for r_ in rs]
+        try:
+            want = [tuple(from_kd_buf(r_)) for r_ in rs]
+        except Exception as ex:
+            bad = next(r_ for r_ in rs if _raises(from_kd_buf, r_))
+            ctx.violation('C01/raised', 'from_kd_buf raised %r on the 64-byte record %s' % (ex, bad.hex()),
+                          {'record_hex': bad.hex(), 'clause': 'raised'})
+            continue
         for via in ('kdbuf', 'api'):
             try:
                 got = [tuple(e) for e in (KdBufParser({}, {}).parse(io.BytesIO(blob)) if via == 'kdbuf' else PyKdebugParser().kevents(io.BytesIO(blob)))]
